@@ -126,7 +126,7 @@ def case_strategy(draw, ctx):
     interior = scenes.interior_range(shape, faces)
 
     n_src = draw(st.sampled_from([2, 2, 3]))
-    t_common = draw(st.integers(0, steps - 1))  # a step at which (almost) all sources are on
+    t_common = 6 * draw(st.integers(0, (steps - 1) // 6))  # a step (multiple of every interval) at which most sources are on
     sources = []
     for i in range(n_src):
         s = draw(scenes.source_strategy(shape, steps, faces, name=f"src{i}", switches=False, interior=interior))
@@ -355,7 +355,7 @@ def body(ctx, case):
 
 
 SUBS = [
-    Sub(name="superposition", body=body, strategy=lambda ctx: case_strategy(ctx), quick=12, thorough=480,
+    Sub(name="superposition", body=body, strategy=lambda ctx: case_strategy(ctx), quick=12, thorough=320,
         lanes=("f64", "f32"), f32_fraction=0.25, quick_shards=3, max_seconds_quick=420.0,
         rule="fixed scene; runs: each source alone, initial state alone, joint, scaled; numpy linear combination"),
 ]
